@@ -13,7 +13,8 @@ Inductive tok : Set :=
   | TStar         (* *      = [^/]*           *)
   | TRecPre       (* **/    = (?:/?|.*/)      at the start *)
   | TRecSuf       (* /**    = /.*             at the end   *)
-  | TRecMid.      (* /**/   = (?:/|/.*/)      in the middle *)
+  | TRecMid       (* /**/   = (?:/|/.*/)      in the middle *)
+  | TClass (neg : bool) (ranges : list (ascii * ascii)).   (* [a-cx] / [!...] : one byte *)
 
 Definition is_sep (c : ascii) : bool := Ascii.eqb c "/".
 
@@ -46,12 +47,32 @@ Fixpoint tmatch (ts : list tok) (s : string) : bool :=
                     | String d s' => is_sep d && (tmatch r s' || after_some_slash (tmatch r) s')
                     | EmptyString => false
                     end
+  | TClass neg rs :: r =>
+      match s with
+      | String d s' =>
+          xorb neg (existsb (fun ab => N.leb (N_of_ascii (fst ab)) (N_of_ascii d) && N.leb (N_of_ascii d) (N_of_ascii (snd ab))) rs)
+          && tmatch r s'
+      | EmptyString => false
+      end
   end.
 
 (* ---- parser (globset::glob::Parser, restricted) ---- *)
 Definition unsupported_char (c : ascii) : bool :=
   let n := N_of_ascii c in
-  orb (N.eqb n 91) (orb (N.eqb n 93) (orb (N.eqb n 123) (orb (N.eqb n 125) (N.eqb n 92)))).  (* [ ] { } \ *)
+  orb (N.eqb n 93) (orb (N.eqb n 123) (orb (N.eqb n 125) (N.eqb n 92))).  (* ] { } \ *)
+
+(* the body of a class up to the closing bracket: (ranges, rest) *)
+Fixpoint parse_class (s : string) (acc : list (ascii * ascii)) : option (list (ascii * ascii) * string) :=
+  match s with
+  | EmptyString => None
+  | String c r =>
+      if Ascii.eqb c "]" then Some (rev acc, r)
+      else match r with
+           | String "-" (String e r2) =>
+               if Ascii.eqb e "]" then parse_class r ((c, c) :: acc) else parse_class r2 ((c, e) :: acc)
+           | _ => parse_class r ((c, c) :: acc)
+           end
+  end.
 
 Definition last_tok_is_sep (acc : list tok) : bool :=
   match acc with TLit c :: _ => is_sep c | _ => false end.
@@ -65,6 +86,15 @@ Fixpoint parse_aux (fuel : nat) (s : string) (acc : list tok) (prev : option asc
     | EmptyString => Some (rev acc)
     | String c r =>
         if unsupported_char c then None
+        else if Ascii.eqb c "[" then
+          let (neg, body) := match r with
+                             | String "!" b => (true, b)
+                             | String "^" b => (true, b)
+                             | _ => (false, r) end in
+          match parse_class body [] with
+          | Some (rs, rest) => parse_aux fuel' rest (TClass neg rs :: acc) (Some "]"%char)
+          | None => None
+          end
         else if Ascii.eqb c "?" then parse_aux fuel' r (TAny :: acc) (Some c)
         else if Ascii.eqb c "*" then
           match r with
